@@ -52,11 +52,15 @@ static void eb_mul_fix_kbltz(eb_t r, const eb_t *t, const bn_t k) {
 	int i, n;
 	int8_t u, tnaf[RLC_FB_BITS + 8];
 	size_t l;
+	bn_t ord, m;
 
 	if (bn_is_zero(k)) {
 		eb_set_infty(r);
 		return;
 	}
+
+	bn_null(ord);
+	bn_null(m);
 
 	/* Compute the w-TNAF representation of k. */
 	if (eb_curve_opt_a() == RLC_ZERO) {
@@ -65,32 +69,48 @@ static void eb_mul_fix_kbltz(eb_t r, const eb_t *t, const bn_t k) {
 		u = 1;
 	}
 
-	/* Compute the w-TNAF representation of k. */
-	l = sizeof(tnaf);
-	bn_rec_tnaf(tnaf, &l, k, u, RLC_FB_BITS, RLC_DEPTH);
+	RLC_TRY {
+		bn_new(ord);
+		bn_new(m);
 
-	n = tnaf[l - 1];
-	if (n > 0) {
-		eb_copy(r, t[n / 2]);
-	} else {
-		eb_neg(r, t[-n / 2]);
-	}
+		/* [k]P depends on k modulo the group order h * r only, and the expansion
+		 * of a scalar below it fits the array (bn_rec_tnaf does not check the
+		 * length of what it writes). */
+		eb_curve_get_ord(ord);
+		eb_curve_get_cof(m);
+		bn_mul(ord, ord, m);
+		bn_abs(m, k);
+		bn_mod(m, m, ord);
 
-	for (i = l - 2; i >= 0; i--) {
-		eb_frb(r, r);
+		/* Compute the w-TNAF representation of k. */
+		l = sizeof(tnaf);
+		bn_rec_tnaf(tnaf, &l, m, u, RLC_FB_BITS, RLC_DEPTH);
 
-		n = tnaf[i];
-		if (n > 0) {
-			eb_add(r, r, t[n / 2]);
+		/* A multiple of the group order has no digits. */
+		eb_set_infty(r);
+		for (i = (int)l - 1; i >= 0; i--) {
+			eb_frb(r, r);
+
+			n = tnaf[i];
+			if (n > 0) {
+				eb_add(r, r, t[n / 2]);
+			}
+			if (n < 0) {
+				eb_sub(r, r, t[-n / 2]);
+			}
 		}
-		if (n < 0) {
-			eb_sub(r, r, t[-n / 2]);
+		/* Convert r to affine coordinates. */
+		eb_norm(r, r);
+		if (bn_sign(k) == RLC_NEG) {
+			eb_neg(r, r);
 		}
 	}
-	/* Convert r to affine coordinates. */
-	eb_norm(r, r);
-	if (bn_sign(k) == RLC_NEG) {
-		eb_neg(r, r);
+	RLC_CATCH_ANY {
+		RLC_THROW(ERR_CAUGHT);
+	}
+	RLC_FINALLY {
+		bn_free(ord);
+		bn_free(m);
 	}
 }
 
